@@ -447,15 +447,15 @@ func (p *PQL) Execute() {
 		case ruleAction17:
 			p.addField("from")
 		case ruleAction18:
-			p.addVal(buffer[begin:end])
+			p.addVal(text)
 		case ruleAction19:
 			p.addField("to")
 		case ruleAction20:
-			p.addVal(buffer[begin:end])
+			p.addVal(text)
 		case ruleAction21:
 			p.endCall()
 		case ruleAction22:
-			p.startCall(buffer[begin:end])
+			p.startCall(text)
 		case ruleAction23:
 			p.endCall()
 		case ruleAction24:
@@ -477,11 +477,11 @@ func (p *PQL) Execute() {
 		case ruleAction32:
 			p.endConditional()
 		case ruleAction33:
-			p.condAdd(buffer[begin:end])
+			p.condAdd(text)
 		case ruleAction34:
-			p.condAdd(buffer[begin:end])
+			p.condAdd(text)
 		case ruleAction35:
-			p.condAdd(buffer[begin:end])
+			p.condAdd(text)
 		case ruleAction36:
 			p.startList()
 		case ruleAction37:
@@ -493,40 +493,40 @@ func (p *PQL) Execute() {
 		case ruleAction40:
 			p.addVal(false)
 		case ruleAction41:
-			p.addVal(buffer[begin:end])
+			p.addVal(text)
 		case ruleAction42:
-			p.addNumVal(buffer[begin:end])
+			p.addNumVal(text)
 		case ruleAction43:
-			p.addNumVal(buffer[begin:end])
+			p.addNumVal(text)
 		case ruleAction44:
-			p.startCall(buffer[begin:end])
+			p.startCall(text)
 		case ruleAction45:
 			p.addVal(p.endCall())
 		case ruleAction46:
-			p.addVal(buffer[begin:end])
+			p.addVal(text)
 		case ruleAction47:
-			s, _ := strconv.Unquote(buffer[begin:end])
+			s, _ := strconv.Unquote(text)
 			p.addVal(s)
 		case ruleAction48:
-			p.addVal(buffer[begin:end])
+			p.addVal(text)
 		case ruleAction49:
-			p.addField(buffer[begin:end])
+			p.addField(text)
 		case ruleAction50:
-			p.addPosStr("_field", buffer[begin:end])
+			p.addPosStr("_field", text)
 		case ruleAction51:
-			p.addPosNum("_col", buffer[begin:end])
+			p.addPosNum("_col", text)
 		case ruleAction52:
-			p.addPosStr("_col", buffer[begin:end])
+			p.addPosStr("_col", text)
 		case ruleAction53:
-			p.addPosStr("_col", buffer[begin:end])
+			p.addPosStr("_col", text)
 		case ruleAction54:
-			p.addPosNum("_row", buffer[begin:end])
+			p.addPosNum("_row", text)
 		case ruleAction55:
-			p.addPosStr("_row", buffer[begin:end])
+			p.addPosStr("_row", text)
 		case ruleAction56:
-			p.addPosStr("_row", buffer[begin:end])
+			p.addPosStr("_row", text)
 		case ruleAction57:
-			p.addPosStr("_timestamp", buffer[begin:end])
+			p.addPosStr("_timestamp", text)
 
 		}
 	}
@@ -3044,16 +3044,16 @@ func (p *PQL) Init() {
 		nil,
 		/* 50 Action17 <- <{p.addField("from")}> */
 		nil,
-		/* 51 Action18 <- <{p.addVal(buffer[begin:end])}> */
+		/* 51 Action18 <- <{p.addVal(text)}> */
 		nil,
 		/* 52 Action19 <- <{p.addField("to")}> */
 		nil,
-		/* 53 Action20 <- <{p.addVal(buffer[begin:end])}> */
+		/* 53 Action20 <- <{p.addVal(text)}> */
 		nil,
 		/* 54 Action21 <- <{p.endCall()}> */
 		nil,
 		nil,
-		/* 56 Action22 <- <{ p.startCall(buffer[begin:end] ) }> */
+		/* 56 Action22 <- <{ p.startCall(text ) }> */
 		nil,
 		/* 57 Action23 <- <{ p.endCall() }> */
 		nil,
@@ -3075,11 +3075,11 @@ func (p *PQL) Init() {
 		nil,
 		/* 66 Action32 <- <{p.endConditional()}> */
 		nil,
-		/* 67 Action33 <- <{p.condAdd(buffer[begin:end])}> */
+		/* 67 Action33 <- <{p.condAdd(text)}> */
 		nil,
-		/* 68 Action34 <- <{p.condAdd(buffer[begin:end])}> */
+		/* 68 Action34 <- <{p.condAdd(text)}> */
 		nil,
-		/* 69 Action35 <- <{p.condAdd(buffer[begin:end])}> */
+		/* 69 Action35 <- <{p.condAdd(text)}> */
 		nil,
 		/* 70 Action36 <- <{ p.startList() }> */
 		nil,
@@ -3091,39 +3091,39 @@ func (p *PQL) Init() {
 		nil,
 		/* 74 Action40 <- <{ p.addVal(false) }> */
 		nil,
-		/* 75 Action41 <- <{ p.addVal(buffer[begin:end]) }> */
+		/* 75 Action41 <- <{ p.addVal(text) }> */
 		nil,
-		/* 76 Action42 <- <{ p.addNumVal(buffer[begin:end]) }> */
+		/* 76 Action42 <- <{ p.addNumVal(text) }> */
 		nil,
-		/* 77 Action43 <- <{ p.addNumVal(buffer[begin:end]) }> */
+		/* 77 Action43 <- <{ p.addNumVal(text) }> */
 		nil,
-		/* 78 Action44 <- <{ p.startCall(buffer[begin:end]) }> */
+		/* 78 Action44 <- <{ p.startCall(text) }> */
 		nil,
 		/* 79 Action45 <- <{ p.addVal(p.endCall()) }> */
 		nil,
-		/* 80 Action46 <- <{ p.addVal(buffer[begin:end]) }> */
+		/* 80 Action46 <- <{ p.addVal(text) }> */
 		nil,
-		/* 81 Action47 <- <{ s, _ := strconv.Unquote(buffer[begin:end]); p.addVal(s) }> */
+		/* 81 Action47 <- <{ s, _ := strconv.Unquote(text); p.addVal(s) }> */
 		nil,
-		/* 82 Action48 <- <{ p.addVal(buffer[begin:end]) }> */
+		/* 82 Action48 <- <{ p.addVal(text) }> */
 		nil,
-		/* 83 Action49 <- <{ p.addField(buffer[begin:end]) }> */
+		/* 83 Action49 <- <{ p.addField(text) }> */
 		nil,
-		/* 84 Action50 <- <{ p.addPosStr("_field", buffer[begin:end]) }> */
+		/* 84 Action50 <- <{ p.addPosStr("_field", text) }> */
 		nil,
-		/* 85 Action51 <- <{p.addPosNum("_col", buffer[begin:end])}> */
+		/* 85 Action51 <- <{p.addPosNum("_col", text)}> */
 		nil,
-		/* 86 Action52 <- <{p.addPosStr("_col", buffer[begin:end])}> */
+		/* 86 Action52 <- <{p.addPosStr("_col", text)}> */
 		nil,
-		/* 87 Action53 <- <{p.addPosStr("_col", buffer[begin:end])}> */
+		/* 87 Action53 <- <{p.addPosStr("_col", text)}> */
 		nil,
-		/* 88 Action54 <- <{p.addPosNum("_row", buffer[begin:end])}> */
+		/* 88 Action54 <- <{p.addPosNum("_row", text)}> */
 		nil,
-		/* 89 Action55 <- <{p.addPosStr("_row", buffer[begin:end])}> */
+		/* 89 Action55 <- <{p.addPosStr("_row", text)}> */
 		nil,
-		/* 90 Action56 <- <{p.addPosStr("_row", buffer[begin:end])}> */
+		/* 90 Action56 <- <{p.addPosStr("_row", text)}> */
 		nil,
-		/* 91 Action57 <- <{p.addPosStr("_timestamp", buffer[begin:end])}> */
+		/* 91 Action57 <- <{p.addPosStr("_timestamp", text)}> */
 		nil,
 	}
 	p.rules = _rules
